@@ -17,7 +17,7 @@ Section OO.
 
   (* system path and tree-relative path that name the same object: they grow by the same names from (root/path, path) *)
   Inductive paired (path : list N) : list N -> list N -> Prop :=
-  | paired_start : paired path (pjoin rootdir path) path
+  | paired_start : paired path (walk_top path) path
   | paired_step dp rp n : paired path dp rp -> paired path (pjoin dp n) (pjoin rp n).
 
   Definition justified (path : list N) (cl : call) : Prop :=
